@@ -857,7 +857,9 @@ fn gen_order(rng: &mut Rng, t: &TreeSpec) -> Vec<usize> {
 
 fn generate(out: &mut Out, opts: &Opts, builder_base: &Path, node_base: &Path) {
     let mut rng = Rng::new(opts.seed);
-    let (trees, orders) = if opts.thorough() { (250 * opts.scale, 6) } else { (60 * opts.scale, 3) };
+    // measured: a tree costs ~0.4 s CPU to build (one RocksDB open per branch of the builder), a case
+    // ~0.2 s (node start); quick = 20 trees x 3 orders = 60 cases, thorough = 250 x 6 = 1500 cases
+    let (trees, orders) = if opts.thorough() { (250 * opts.scale, 6) } else { (20 * opts.scale, 3) };
     let t0 = Instant::now();
     let mut cases = 0u64;
     let (mut t_build, mut t_start, mut t_ops, mut t_stop) = (Duration::ZERO, Duration::ZERO, Duration::ZERO, Duration::ZERO);
